@@ -2,7 +2,8 @@
 
   C16.R1  a `str | list[str]` value is normalised before anything iterates it (rules/c16_r1.py: flow-sensitive, interprocedural)
   C16.R2  LayerRule.are_named: exactly one subject layer (configuration errors raised <=> subject side and (subject present or list));
-          nothing is added before that guard; the side flag of the wrapped Rule follows the layer-rule language
+          nothing is added before that guard; the side flag of the wrapped Rule follows the layer-rule language (set by layers_that,
+          untouched by the behaviour words and by are_named itself, cleared by the access words)
   C16.R3  builder guards dominate the state writes; the duplicate-module check compares the whole normalised argument against the
           materialised identifiers of all stored modules; the 'pending' test agrees with the stored values; architecture guards
   C16.R4  accepted definitions are stored faithfully (whole list, in order, under the single pending layer) and read back unchanged
@@ -861,6 +862,33 @@ def check_are_named(repo: Repo, F: RuleFacts, res: Result, arch: Term, rule: Ter
             for c in cands:
                 if c not in subj and c != side and c != rule and not any(mentions(o, c) and o != c for o in cands):
                     subj.append(c)
+    # are_named itself must leave the side as it found it: the guard of the *next* are_named reads the same flag, so a flag that
+    # is falsy after the subject has been stored lets a second subject layer through (filed as an object), and a flag that turns
+    # truthy on the object side makes further object layers subjects
+    skey = K(m, "side flag: unchanged by are_named")
+    moved = None
+    for pc, _v, heap in r.returns:
+        rule_after = heap.get((SELF, rule[2]), rule)
+        final = heap.get((rule_after, flag), heap.get((rule, flag)))
+        if final is None or final == side:
+            continue
+        pcf = f_and([enc.pc(pc), started])
+        if not satisfiable(pcf):
+            continue
+        if not equivalent(enc.truth(final), S, pcf):
+            moved = (final, pc)
+            break
+    if moved is not None:
+        w = [e for e in r.of("setattr") if e.data["attr"] == flag and (e.data["obj"] == rule or mentions(e.data["obj"], rule) or e.data["obj"][0] == "obj")]
+        on_subject = satisfiable(f_and([enc.pc(moved[1]), started, S, f_not(enc.truth(moved[0]))]))
+        detail = (
+            f"after are_named has stored the subject layer the side flag `{flag}` of the wrapped rule is `{show(moved[0])[:80]}`, no longer truthy: the subject guard of the next are_named (it reads the flag for its truth value) cannot fire, so a second subject layer is accepted and filed as a rule object"
+            if on_subject
+            else f"are_named turns the side flag `{flag}` of the wrapped rule into `{show(moved[0])[:80]}` on the object side: layers named afterwards are treated as subjects"
+        )
+        verdict(res, r, "C16.R2", skey, False, detail, w[0].where if w else f"{m.relpath}:{m.node.lineno}", kind="flow")
+    else:
+        verdict(res, r, "C16.R2", skey, True, "are_named leaves the subject/object side of the wrapped rule as it found it (the guard can fire again on the next call)", f"{m.relpath}:{m.node.lineno}", kind="flow")
     # nothing may be added to the rule on a path that can still end in a configuration error
     order = {id(e): i for i, e in enumerate(r.events)}
     late = [(e, x) for e in effects for x in config_raises(r) if order[id(x)] > order[id(e)] and x.pc[: len(e.pc)] == e.pc]
